@@ -521,15 +521,7 @@ public:
 		MemManager memManager = MemManager())
 		: TreeSet(treeTraits, std::move(memManager))
 	{
-		try
-		{
-			Insert(items);
-		}
-		catch (...)
-		{
-			pvDestroy();
-			throw;
-		}
+		Insert(items);
 	}
 
 	TreeSet(TreeSet&& treeSet) noexcept
@@ -555,15 +547,7 @@ public:
 		if (mCount == 0)
 			return;
 		mNodeParams = pvCreateNodeParams();
-		try
-		{
-			mRootNode = pvCopy(treeSet.mRootNode);
-		}
-		catch (...)
-		{
-			pvDestroy();
-			throw;
-		}
+		mRootNode = pvCopy(treeSet.mRootNode);
 		if (!mRootNode->IsLeaf())
 			pvUpdateParents(mRootNode);
 	}
